@@ -179,3 +179,15 @@ package clickhouse_transpiler
 //@   flag checks=-index,-assert
 //@   requires typeis(root, "*rootExpressionPlanner") && !typeis(current, "*simpleExpressionPlanner")
 //@   at planComplex group-continues-in-the-operand-just-added: script.AndOr == "&&" ==> arg1 == lastAdded && typeis(arg1, "*complexExpressionPlanner")
+
+// `| min(.x) > 5` and friends: each aggregator is the SQL aggregate of its own name over
+// the numeric values of the aggregated attribute (count: the number of distinct spans).
+//@ func (*AggregatorPlanner).getAggregator [C11]
+//@   flag checks=-index,-assert
+//@   modifies nothing
+//@   ensures count: a.Fn == "count" ==> result1 == nil && typeis(result0, "*sql.RawObject") && unbox(result0, "*sql.RawObject").val == "toFloat64(count(distinct " + a.Prefix + "index_search.span_id))"
+//@   ensures avg: a.Fn == "avg" ==> result1 == nil && typeis(result0, "*sql.RawObject") && unbox(result0, "*sql.RawObject").val == "avgIf(agg_val, isNotNull(agg_val))"
+//@   ensures max: a.Fn == "max" ==> result1 == nil && typeis(result0, "*sql.RawObject") && unbox(result0, "*sql.RawObject").val == "maxIf(agg_val, isNotNull(agg_val))"
+//@   ensures min: a.Fn == "min" ==> result1 == nil && typeis(result0, "*sql.RawObject") && unbox(result0, "*sql.RawObject").val == "minIf(agg_val, isNotNull(agg_val))"
+//@   ensures sum: a.Fn == "sum" ==> result1 == nil && typeis(result0, "*sql.RawObject") && unbox(result0, "*sql.RawObject").val == "sumIf(agg_val, isNotNull(agg_val))"
+//@   ensures other-aggregators-rejected: a.Fn != "count" && a.Fn != "avg" && a.Fn != "max" && a.Fn != "min" && a.Fn != "sum" ==> result1 != nil
